@@ -506,30 +506,8 @@ func H_C05_interleave() {
 	c05Check(s, key, f, cells, "interleave")
 }
 
-// H_C05_condition: condition(P, T, F) picks a branch by whether P yields any cell.
-func H_C05_condition() {
-	s, key := c05Server()
-	cells := c05Row(s, key)
-	p := c05BasisLeaf("cond.p")
-	if p.sample {
-		return
-	}
-	// branches: absent, pass_all, or a basis leaf
-	branch := func(name string) (fFilter, bool) {
-		switch vChoice(name+".kind", 0, 2) {
-		case 0:
-			return fFilter{}, false
-		case 1:
-			return c05Leaf(8), true // strip value: visible in the output
-		}
-		l := c05BasisLeaf(name)
-		return l, true
-	}
-	t, haveT := branch("cond.t")
-	e, haveE := branch("cond.f")
-	if t.sample || e.sample {
-		return
-	}
+// c05Condition builds condition(p ? t : e); an absent branch yields no cells.
+func c05Condition(p, t fFilter, haveT bool, e fFilter, haveE bool) fFilter {
 	c := &btpb.RowFilter_Condition{PredicateFilter: p.pb}
 	if haveT {
 		c.TrueFilter = t.pb
@@ -538,9 +516,9 @@ func H_C05_condition() {
 		c.FalseFilter = e.pb
 	}
 	f := fFilter{pb: &btpb.RowFilter{Filter: &btpb.RowFilter_Condition_{Condition: c}}}
-	po, pinv := p.ev(cells)
-	matched := fAny(po)
 	f.ev = func(in []fCell) ([]fCell, bool) {
+		po, pinv := p.ev(in)
+		matched := fAny(po)
 		out := fClone(in)
 		for i := range out {
 			out[i].alive = false
@@ -572,6 +550,34 @@ func H_C05_condition() {
 		}
 		return res, vOr(pinv, vOr(vAnd(matched, tinv), vAnd(vNot(matched), einv)))
 	}
+	return f
+}
+
+// H_C05_condition: condition(P, T, F) picks a branch by whether P yields any cell.
+func H_C05_condition() {
+	s, key := c05Server()
+	cells := c05Row(s, key)
+	p := c05BasisLeaf("cond.p")
+	if p.sample {
+		return
+	}
+	// branches: absent, pass_all, or a basis leaf
+	branch := func(name string) (fFilter, bool) {
+		switch vChoice(name+".kind", 0, 2) {
+		case 0:
+			return fFilter{}, false
+		case 1:
+			return c05Leaf(8), true // strip value: visible in the output
+		}
+		l := c05BasisLeaf(name)
+		return l, true
+	}
+	t, haveT := branch("cond.t")
+	e, haveE := branch("cond.f")
+	if t.sample || e.sample {
+		return
+	}
+	f := c05Condition(p, t, haveT, e, haveE)
 	c05Check(s, key, f, cells, "condition")
 }
 
@@ -627,6 +633,26 @@ func c05RefMatch(pat int, s []byte) bool {
 	return false
 }
 
+// H_C05_regex_bytes: a pattern that is one raw byte around the ASCII / non-ASCII boundary (the
+// escaping of non-UTF-8 pattern bytes) against a one-byte value from {0x7e, 0x7f, 0x80, 0x81, 0xc3, 0xff, 'a'}: the row is returned
+// iff the value is exactly that byte.
+func H_C05_regex_bytes() {
+	s, _ := c05Server()
+	val := vNondetBytes("val", 1)
+	// (the regex engine runs natively on each concretised subject: a small set of candidate bytes)
+	vAssume(vOr(vOr(vOr(val[0] == 0x7e, val[0] == 0x7f), vOr(val[0] == 0x80, val[0] == 0x81)), vOr(vOr(val[0] == 0xc3, val[0] == 0xff), val[0] == 'a')))
+	s.tables[vTable].rows.ReplaceOrInsert(&btpb.Row{Key: []byte("r"), Families: []*btpb.Family{{Name: "f", Columns: []*btpb.Column{{Qualifier: []byte("q"),
+		Cells: []*btpb.Cell{{TimestampMicros: 1000, Value: val}}}}}}})
+	pb := []byte{0x7f, 0x80, 0x81, 0xc3, 0xff}[vChoice("pattern.byte", 0, 4)]
+	st := &vReadStream{}
+	err := s.ReadRows(&btpb.ReadRowsRequest{TableName: vTable, Filter: &btpb.RowFilter{Filter: &btpb.RowFilter_ValueRegexFilter{ValueRegexFilter: []byte{pb}}}}, st)
+	vAssert(err == nil, "regex-bytes:ok")
+	rows, ok := vDecode(st.msgs)
+	vAssert(ok, "regex-bytes:stream-wellformed")
+	vAssert((len(rows) == 1) == (val[0] == pb), "regex-bytes:row-returned-iff-the-value-is-that-byte")
+	vReach("c05-regex-bytes")
+}
+
 var c05Patterns = []string{"a", "a.", `a\C`, ".*", "[ab]+", "a|b", "\xff", "("}
 
 func H_C05_regex() {
@@ -667,4 +693,5 @@ func H_C05_regex() {
 
 func init() {
 	vHarnesses["H_C05_regex"] = H_C05_regex
+	vHarnesses["H_C05_regex_bytes"] = H_C05_regex_bytes
 }
